@@ -138,6 +138,17 @@ fn bomb(file: &str, kind: &str) -> Option<(Vec<u8>, Vec<u8>, char)> {
         "inner-attr-value" => (format!("{}{}", head, inner.trim_end_matches('>')).into_bytes(), b"a".to_vec(), inner_limit),
         "inner-name" => (format!("{}<", head).into_bytes(), b"p".to_vec(), inner_limit),
         "nested" => (head.as_bytes().to_vec(), b"<a>".to_vec(), inner_limit),
+        // endless runs of small *complete* items that are not elements: each one must count towards the limit
+        "comments-after-root" => (head.as_bytes().to_vec(), b"<!--x-->".to_vec(), inner_limit),
+        "pis-after-root" => (head.as_bytes().to_vec(), b"<?x y?>".to_vec(), inner_limit),
+        "cdata-after-root" => (head.as_bytes().to_vec(), b"<![CDATA[]]>".to_vec(), inner_limit),
+        "leading-comments" => (b"".to_vec(), b"<!--x-->".to_vec(), 'h'),
+        "comments-between" => (match file {
+            "notif" => format!("{}<snapshot uri=\"https://h/s.xml\" hash=\"{}\"/>", head, "00".repeat(32)),
+            _ => format!("{}<publish uri=\"rsync://h/m/a.cer\">QUJD</publish>", head) }.into_bytes(), b"<!--x-->".to_vec(), inner_limit),
+        "comments-ws-between" => (match file {
+            "notif" => format!("{}<snapshot uri=\"https://h/s.xml\" hash=\"{}\"/>", head, "00".repeat(32)),
+            _ => format!("{}<withdraw uri=\"rsync://h/m/a.cer\" hash=\"{}\"/>", head, "00".repeat(32)) }.into_bytes(), b" <!-- -->\n".to_vec(), inner_limit),
         // inside a publish element: text content under the file limit
         "publish-text" if file != "notif" => (format!("{}{}", head, inner).into_bytes(), b"QUJD".to_vec(), 'f'),
         "publish-ws" if file != "notif" => (format!("{}{}", head, inner).into_bytes(), b" ".to_vec(), 'f'),
@@ -398,8 +409,9 @@ pub fn generate(ctx: &mut Ctx) {
     for file in ["notif", "snap", "delta"] {
         for kind in ["root-attr-value", "root-attr-name", "root-name", "root-ws-in-tag", "leading-ws", "leading-comment",
                      "leading-doctype", "ws-after-root", "comment-after-root", "text-after-root", "entity-after-root",
-                     "inner-attr-value", "inner-name", "nested", "trailing-ws", "trailing-comment"] {
-            if bomb(file, kind).is_some() && (file == "notif" || bomb(file, kind).unwrap().2 == 'h' || ctx.tier_thorough || kind == "ws-after-root") {
+                     "inner-attr-value", "inner-name", "nested", "trailing-ws", "trailing-comment",
+                     "comments-after-root", "pis-after-root", "cdata-after-root", "leading-comments", "comments-between", "comments-ws-between"] {
+            if bomb(file, kind).is_some() && (file == "notif" || bomb(file, kind).unwrap().2 == 'h' || ctx.tier_thorough || kind == "ws-after-root" || (kind == "comments-between" && file == "snap")) {
                 ctx.case(&format!("bomb {} {}", file, kind));
             }
         }
